@@ -245,8 +245,44 @@ pub fn probes() -> Vec<Vec<Op>> {
     ]
 }
 
+/// Value patterns with equal elements (see `Case::vals`): cases whose outcome depends on how ties are broken.
+pub fn tie_cases(n: usize, start: usize, len: usize) -> Vec<Case> {
+    let mut out = Vec::new();
+    for pat in [1u8, 2, 3, 4] {
+        for a in [Acc::IterMutMax, Acc::IterMutMin] {
+            out.push(base(n, start, len, vec![Op::Set(a, Idx::At(0)), Op::Views]).with_vals(pat));
+            out.push(base(n, start, len, vec![Op::Mutate(a, Idx::At(0)), Op::Views]).with_vals(pat));
+        }
+        out.push(base(n, start, len, vec![Op::Views]).with_vals(pat));
+        out.push(base(n, start, len, vec![Op::IterScript(IterKind::Iter, vec![Step::Search])]).with_vals(pat));
+        out.push(base(n, start, len, vec![Op::IterScript(IterKind::Iter, vec![Step::Next, Step::Search])]).with_vals(pat));
+        out.push(base(n, start, len, vec![Op::IterScript(IterKind::Iter, vec![Step::NextBack, Step::Search])]).with_vals(pat));
+        out.push(base(n, start, len, vec![Op::IterScript(IterKind::IterMut, vec![Step::Search])]).with_vals(pat));
+        out.push(base(n, start, len, vec![Op::IterScript(IterKind::IterMut, vec![Step::Next, Step::Search])]).with_vals(pat));
+        for a in 0..=len.min(3) {
+            for b in (len.saturating_sub(2)).max(a)..=len {
+                out.push(base(n, start, len, vec![Op::IterScript(IterKind::Range(canonical(a, b)), vec![Step::Search])]).with_vals(pat));
+                out.push(base(n, start, len, vec![Op::IterScript(IterKind::RangeMut(canonical(a, b)), vec![Step::Search])]).with_vals(pat));
+            }
+        }
+        out.push(base(n, start, len, vec![Op::Cmp(0, len as u32, None)]).with_vals(pat));
+        out.push(base(n, start, len, vec![Op::EqSlice(None)]).with_vals(pat));
+    }
+    // a predicate that panics in the middle of a search: the iterator must stay a contiguous rest, and how much it
+    // consumed must not depend on the layout
+    for k in 0..=len as u16 {
+        for back in [false, true] {
+            out.push(base(n, start, len, vec![Op::IterScript(IterKind::Iter, vec![Step::PanicSearch(k, back), Step::Next, Step::NextBack])]));
+            out.push(base(n, start, len, vec![Op::IterScript(IterKind::Iter, vec![Step::Next, Step::PanicSearch(k, back), Step::Fork])]));
+            out.push(base(n, start, len, vec![Op::IterScript(IterKind::Range(canonical(len.min(1), len)), vec![Step::PanicSearch(k, back), Step::Next])]));
+        }
+    }
+    out
+}
+
 pub fn c01(n: usize, start: usize, len: usize) -> Vec<Case> {
     let mut out: Vec<Case> = mutating_ops(n, len, false).into_iter().map(|op| base(n, start, len, vec![op])).collect();
+    out.extend(tie_cases(n, start, len));
     // two cooperating steps: every mutator followed by every probe, for the smaller capacities
     if n <= 5 {
         for op in mutating_ops(n, len, false) {
@@ -371,6 +407,7 @@ pub fn c04_base(n: usize, start: usize, len: usize) -> Vec<Case> {
             // contents by the first op is walked by user code
             base(n, start, len, vec![op, Op::Views, Op::Cmp(0, n as u32, None)])
         })
+        .chain(tie_cases(n, start, len))
         .collect()
 }
 
@@ -495,6 +532,10 @@ pub fn c06_base(n: usize, start: usize, len: usize) -> Vec<(Case, Vec<FaultKind>
     for script in [vec![Step::Fold], vec![Step::RFold], vec![Step::Next, Step::RFold], vec![Step::NextBack, Step::Fold], vec![Step::FindMid], vec![Step::RFindMid]] {
         ops.push((Op::IntoIter(script), vec![FaultKind::Make]));
     }
+    // cloning the owning iterator (fresh, and after steps from either end) with a panicking Clone
+    for script in [vec![Step::Fork], vec![Step::Next, Step::Fork], vec![Step::NextBack, Step::Fork], vec![Step::Next, Step::NextBack, Step::Fork, Step::Next]] {
+        ops.push((Op::IntoIter(script), vec![FaultKind::Clone]));
+    }
     if n > 0 {
         for s in 0..n {
             for l in 0..=n {
@@ -547,6 +588,7 @@ pub fn c07(n: usize, start: usize, len: usize) -> Vec<Case> {
     for a in ALL_ACC {
         out.push(base(n, start, len, vec![Op::MakeContiguous, Op::Set(*a, Idx::FromEnd(1)), Op::Views]));
     }
+    out.extend(tie_cases(n, start, len));
     out
 }
 
@@ -631,6 +673,7 @@ pub fn c08(n: usize, start: usize, len: usize) -> Vec<Case> {
             out.push(base(n, start, len, vec![Op::IntoIter(t)]));
         }
     }
+    out.extend(tie_cases(n, start, len));
     out
 }
 
